@@ -24,9 +24,15 @@ def make_script_entry(rs, ru, rk, kind, spec_p=None, script_p=None, rich=True, m
     else:
         us = dict(si.DEFAULT_US)
         eu = gen.engine_units(us, kind)
+    sp = gen.gen_script(rk, spec_, kind, script_p)
+    if kind != "euler" and sp["isp"] == "none" and rich:
+        # integer molecule counts handed unprocessed to a stochastic engine must not go through a unit round trip
+        # (5 molecules written in mol come back as 4.999999999999999): state and script are written in molecules
+        rich = False
+        us = dict(si.DEFAULT_US)
+        eu = gen.engine_units(us, kind)
     R = gen.Renderer(ru, rich=rich, drawer=drawer)
     sysd, pus, info = R.system(spec_)
-    sp = gen.gen_script(rk, spec_, kind, script_p)
     kw = gen.render_script(ru, sp, us, rich=rich)
     return {"system": sysd, "parent_us": pus, "script": kw,
             "phys": {"spec": spec_, "sp": sp, "us": us, "eu": eu, "kind": kind}}
